@@ -2193,7 +2193,7 @@ Section Cover.
         rewrite andb_false_r, SPp. fold r1. eexists r1, _. split; [reflexivity|]. split; [now right|].
         right. exists p. cbn [r1 mvf wfp]. split; [apply pset_eq | exact Hwp].
       - exists r, []. split; [reflexivity|]. split; [now left|]. left.
-        destruct (alookup N.eqb c (mvf r)) eqn:E; [|reflexivity]. apply (wi_mvf _ _ _ I) in E. unfold c in E. lia. }
+        destruct (alookup N.eqb c (mvf r)) eqn:E; [|reflexivity]. apply (wi_mvf _ _ _ I) in E. unfold c in E. exfalso; clear - E; lia. }
     destruct Hfrom as (ra & evs1 & -> & Hra & Hlk).
     assert (Hra_w : wfp ra = wfp r /\ pfw ra = pfw r) by (destruct Hra as [->| ->]; now split).
     assert (Hra_p : pend ra = None) by (destruct Hra as [->| ->]; exact Hpd).
@@ -2635,7 +2635,7 @@ Section Cover.
     rewrite (read_one_to_movein _ _ _ _ _ (dirname q)); try (vm_compute; reflexivity).
     2:{ cbn [mv_to kev k_wd]. now rewrite Cpq, Edq'. }
     2:{ left. cbn [mv_to kev k_cookie]. destruct (alookup N.eqb c (mvf r)) eqn:E; [|reflexivity].
-        apply (wi_mvf _ _ _ I) in E. unfold c in E. lia. }
+        apply (wi_mvf _ _ _ I) in E. unfold c in E. exfalso; clear - E; lia. }
     2:{ cbn [mv_to kev k_mask k_name]. rewrite SPq, Hfix, Hrec, Fq'. reflexivity. }
     cbn [mv_to kev k_name]. rewrite SPq. cbv zeta.
     assert (Hps : Forall (dir_in_scope t') (q :: walk_dirs t' q)).
@@ -2862,12 +2862,13 @@ Section Cover.
     { intros e He E. apply (path_inj (w_fs w)); [apply W| | |]; congruence. }
     (* the state without the replaced directory *)
     set (rD0 := dropped r (f_path v) (kw_wd kwv)).
-    destruct (dropped_sync w tm k r v kwv kf W I Cv Hv Cvv) as [ID0 CvD0]; try reflexivity; try (cbn; lia).
+    destruct (dropped_sync w tm k r v kwv kf W I Cv Hv Cvv) as [ID0 CvD0]; try reflexivity;
+      try (match goal with |- forall _, _ => fail 1 | _ => cbn; lia end).
     { intros e He De. apply fremove_in in He as [He Hn]. split; [exact He|]. intros ->. congruence. }
     { intros e He De Hn. apply fremove_in. split; [exact He|]. intros E. apply Hn. now apply Hvq. }
     fold rD0 in ID0, CvD0.
     assert (I0 : WInv t' kf rD0).
-    { apply (WInv_ext' tm _ kf); try assumption; try reflexivity; try lia.
+    { apply (WInv_ext' tm _ kf); try assumption; try reflexivity; try (match goal with |- forall _, _ => fail 1 | _ => lia end).
       intros e He De (kw & Hk & Ei). destruct (wi_exact _ _ _ ID0 kw Hk) as (e' & He' & _ & Se' & Ie' & _).
       apply fremove_in in He as [He Hn]. apply fremove_in in He' as [He' Hn'].
       assert (e' = e) by (apply (ino_inj w); try assumption; congruence). subst e'.
@@ -2888,7 +2889,7 @@ Section Cover.
     rewrite (read_one_to_movein _ _ _ _ _ (dirname q)); try (vm_compute; reflexivity).
     2:{ cbn [mv_to kev k_wd]. now rewrite Cpq, Edq'. }
     2:{ left. cbn [mv_to kev k_cookie]. destruct (alookup N.eqb c (mvf r)) eqn:E; [|reflexivity].
-        apply (wi_mvf _ _ _ I) in E. unfold c in E. lia. }
+        apply (wi_mvf _ _ _ I) in E. unfold c in E. exfalso; clear - E; lia. }
     2:{ cbn [mv_to kev k_mask k_name]. rewrite SPq, Hfix, Hrec, Fq'. reflexivity. }
     cbn [mv_to kev k_name]. rewrite SPq. cbv zeta.
     (* the two runs of add_dirs side by side *)
@@ -3072,7 +3073,7 @@ Section Cover.
         cbn [mv_from kev k_cookie k_name k_mask]. rewrite Hnr, andb_false_r. cbn [andb]. rewrite SPp. fold r1. eexists r1, _. split; [reflexivity|]. split; [now right|].
         right. exists p. cbn [r1 mvf wfp]. split; [apply pset_eq | exact Hwp].
       - exists r, []. split; [reflexivity|]. split; [now left|]. left.
-        destruct (alookup N.eqb c (mvf r)) eqn:E; [|reflexivity]. apply (wi_mvf _ _ _ I) in E. unfold c in E. lia. }
+        destruct (alookup N.eqb c (mvf r)) eqn:E; [|reflexivity]. apply (wi_mvf _ _ _ I) in E. unfold c in E. exfalso; clear - E; lia. }
     destruct Hfrom as (ra & evs1 & -> & Hra & Hlk).
     assert (Hra_w : wfp ra = wfp r /\ pfw ra = pfw r) by (destruct Hra as [->| ->]; now split).
     assert (Hra_p : pend ra = None) by (destruct Hra as [->| ->]; exact Hpd).
